@@ -545,6 +545,31 @@ pub fn c02_run(cfg: &RunCfg) -> CheckReport {
     if !rep.has_violation() {
         large::run_part(cfg, &mut rep, &ALGS, &|a| if a == Algorithm::Lcs { 300 } else { usize::MAX }, c02_large);
     }
+    if !rep.has_violation() {
+        // size-triggered paths: LCS beyond 2^20 / 2^24 table cells, more than 2^16 distinct items
+        let mut extra: Vec<(Algorithm, LargeInput)> = vec![];
+        for i in large::lcs_big() {
+            extra.push((Algorithm::Lcs, i));
+        }
+        for i in large::wide() {
+            for &a in ALGS.iter() {
+                if a != Algorithm::Lcs || large::lcs_affordable(&i) {
+                    extra.push((a, i.clone()));
+                }
+            }
+        }
+        let ex = explore(cfg, extra.len(), |shard, acc| {
+            let (alg, inp) = &extra[shard];
+            match c02_large(*alg, inp) {
+                Ok((nt, tr, fp)) => {
+                    acc.sample(large::case_json(*alg, inp, cfg.seed));
+                    acc.ok(nt, tr, fp);
+                }
+                Err(e) => acc.violation(|| (large::case_json(*alg, inp, cfg.seed), format!("{}: {}", inp.name, e))),
+            }
+        });
+        rep.part("huge-size-triggers", json!({"inputs": extra.iter().map(|(a, i)| format!("{} {}", alg_name(*a), i.name)).collect::<Vec<_>>()}), ex);
+    }
     rep
 }
 
@@ -964,7 +989,7 @@ pub fn c11_run(cfg: &RunCfg) -> CheckReport {
     let mut work = vec![];
     for (i, inp) in inputs.iter().enumerate() {
         for &a in ALGS.iter() {
-            if a != Algorithm::Lcs || inp.old.len().max(inp.new.len()) <= 300 {
+            if a != Algorithm::Lcs || large::lcs_affordable(inp) {
                 work.push((a, i));
             }
         }
